@@ -90,6 +90,11 @@ def run(chk):
     if chk.want("R01.8"):
         from ..inherit import inherit
         inherit(chk, "R01.8", "c11", ["R11.6"])
+    chk.rule("R01.10", "the occupancies that are merged are the ones that were read: the keys AsymmetricUnit.from_records asks an atom record for "
+                       "are the keys the SHELX atom-line parser writes (= C10 R10.2 record-keys)", 1)
+    if chk.want("R01.10"):
+        from ..inherit import inherit
+        inherit(chk, "R01.10", "c10", ["R10.2"], fingerprints=lambda f: "record-keys" in f)
     chk.rule("R01.6", "memo discipline of class Crystal (= C14 R14.2): every state-changing method drops every memoised quantity, including any newly introduced cache", 2)
     if chk.want("R01.6"):
         from .c14 import crystal_memo_rule
